@@ -150,6 +150,17 @@ CLAIMS = {
         note="Trusted: reference layouts in spverif/props/c17.py (CCSDS 732.1-B-2 figures 4-2/4-3/4-5). Frame decoder analysed for 11 "
              "managed-parameter configurations.",
         technique=TECH + "; finite case analysis over VCF-count length, construction rules and managed parameters"),
+    "C08": dict(
+        text="Static analysis: generic TLV/LV pack layout per bit, 255-octet refusal, decoders honour the length octet (value extent, "
+             "strict prefixes refused, reported length); the six concrete TLVs' pack layout per bit for every filestore action code "
+             "against the second-name presence table, packet_len in octets of the encoded names; type safety decided by running every "
+             "concrete class's unpack() against every TLV type octet and from_tlv() / the holder accessors against every generic type "
+             "and every other concrete class: only the matching type returns an object, all other paths raise TlvTypeMissmatch / "
+             "TypeError; response status-code table is action<<4|code for existing actions.",
+        note="Trusted: str.encode/bytes.decode opaque and length-correct; reference layouts in spverif/props/c08.py. A few in-bounds "
+             "proofs inside the nested LV parsing of the filestore TLVs exceed the per-proof time budget and are listed as undecided "
+             "in the evidence.",
+        technique=TECH + "; finite case analysis over TLV types and action codes"),
 }
 
 NOT_CLAIMED = {}
